@@ -72,6 +72,8 @@ struct Engine {
     void (*confirm)(Engine &e, const std::string &plan, RunResult &r) = nullptr;
     // names of counters that are probes ("this rare thing happened"): zero => warning in evidence
     std::vector<std::string> probes;
+    // counters that are expected to stay at zero on a tree where the property holds structurally: non-zero => warning (not a violation)
+    std::vector<std::string> expect_zero;
     uint64_t quick_runs = 1000, thorough_runs = 20000;
     double quick_wall_cap = 150, thorough_wall_cap = 1500;
     double run_timeout_s = 60, thorough_run_timeout_s = 0;  // the latter, if set, replaces the former in the thorough tier
